@@ -28,6 +28,21 @@ Ltac len_simp :=
 Ltac len_simp_in H :=
   repeat rewrite ?app_length, ?firstn_length, ?skipn_length, ?repeat_length, ?length_zeros in H.
 
+(* settle one comparison: by lia when the context decides it, by a case split otherwise *)
+Ltac cmp_step :=
+  match goal with
+  | |- context [?a <? ?b] =>
+    first [ rewrite (proj2 (Nat.ltb_lt a b)) by lia | rewrite (proj2 (Nat.ltb_ge a b)) by lia
+          | destruct (Nat.ltb_spec a b) ]
+  | |- context [?a <=? ?b] =>
+    first [ rewrite (proj2 (Nat.leb_le a b)) by lia | rewrite (proj2 (Nat.leb_gt a b)) by lia
+          | destruct (Nat.leb_spec a b) ]
+  | |- context [?a =? ?b] =>
+    first [ rewrite (proj2 (Nat.eqb_eq a b)) by lia | rewrite (proj2 (Nat.eqb_neq a b)) by lia
+          | destruct (Nat.eqb_spec a b) ]
+  end.
+Ltac min_simp := repeat first [ rewrite Nat.min_l by lia | rewrite Nat.min_r by lia ].
+
 (* two byte lists are equal: same length, same bytes (default 0 so that zero fill is transparent) *)
 Ltac list_eq :=
   apply (nth_ext' _ _ 0%N);
@@ -35,7 +50,8 @@ Ltac list_eq :=
   | let i := fresh "i" in let Hi := fresh "Hi" in
     intros i Hi; len_simp_in Hi;
     repeat (rewrite ?nth_app, ?nth_firstn_if, ?nth_skipn', ?nth_zeros; len_simp);
-    repeat cases_if; try lia; try reflexivity; try (f_equal; lia) ].
+    min_simp;
+    repeat cmp_step; try lia; try reflexivity; try (f_equal; lia) ].
 
 Lemma wr_sem m i d : i + length d <= length m -> wr m i d = Ok (firstn i m ++ d ++ skipn (i + length d) m).
 Proof. apply wr_ok. Qed.
